@@ -119,7 +119,7 @@ def run_eos(spec):
 @st.composite
 def qha_specs(draw, tier):
     return {"eos": draw(st.sampled_from(EOS_NAMES)), "key": draw(st.integers(0, 2**32 - 1)), "nT": draw(st.integers(6, 40)), "nV": draw(st.sampled_from([4, 5, 5, 6, 7, 8, 9, 11, 13])),
-            "epf": draw(st.sampled_from([None, None, 2.5, 96.485])),
+            "epf": draw(st.sampled_from([None, None, 2.5, 96.485])), "vorder": draw(st.sampled_from(["ascending", "ascending", "descending", "shuffled"])),
             "dT": draw(st.sampled_from([10.0, 25.0, 50.0])), "pressure": draw(st.sampled_from([None, None, 0.5, 3.0, 7.0, 20.0, -2.0])),
             "el": draw(st.sampled_from(["zeros", "V", "TV"])), "t_max": draw(st.sampled_from([None, None, "inner"])),
             "tgrid": draw(st.sampled_from(["uniform", "uniform", "piecewise", "irregular"])),
@@ -178,7 +178,11 @@ def run_qha(spec):
             a.setflags(write=False)
         return a
 
-    inputs = {"volumes": wrap(V), "electronic_energies": wrap(el), "temperatures": wrap(T), "free_energy": wrap(Fph), "cv": wrap(cv), "entropy": wrap(S)}
+    # the volume points need not be listed in ascending order: every per-volume input is permuted alike
+    vo = spec.get("vorder", "ascending")
+    perm = np.arange(nV) if vo == "ascending" else (np.arange(nV)[::-1] if vo == "descending" else rng_from(spec["key"], 41).permutation(nV))
+    inputs = {"volumes": wrap(V[perm]), "electronic_energies": wrap(np.asarray(el)[..., perm]), "temperatures": wrap(T), "free_energy": wrap(Fph[:, perm]),
+              "cv": wrap(cv[:, perm]), "entropy": wrap(S[:, perm])}
     snap = {k: np.array(v, dtype="double", copy=True) for k, v in inputs.items()}
     results = []
     for rep in range(2 if spec["twice"] else 1):
@@ -263,7 +267,7 @@ def run_qha(spec):
             return Out(ok=False, msg="two consecutive analyses of the same input arrays differ")
     nontriv = nT >= 3 and (Pg is not None or spec["el"] == "TV")
     return Out(ok=True, nontrivial=nontriv, classes=[spec["eos"], "P:%s" % ("none" if Pg is None else "set"), "el:" + spec["el"],
-                                                     "tmax" if t_max else "notmax", "tgrid:" + spec.get("tgrid", "uniform"), "nV:%d" % nV, "epf:%s" % spec.get("epf"), "convex" if spec["convex"] else "concave", spec["container"]],
+                                                     "tmax" if t_max else "notmax", "tgrid:" + spec.get("tgrid", "uniform"), "nV:%d" % nV, "epf:%s" % spec.get("epf"), "volumes:" + vo, "convex" if spec["convex"] else "concave", spec["container"]],
                info={"err": float(max(errs.values()))})
 
 
